@@ -702,6 +702,34 @@ def rule_vocabulary(repo: Repo) -> List[Ob]:
         if mismapped:
             obs.append(Ob("D3-vocabulary", f"program/assignment/functional_assignment.py::{qn}::table", f.relpath, f.node.lineno, qn, False,
                           f"dispatch table maps {', '.join(mismapped)}"))
+        if qn.endswith("get_const_moment") and len(f.params()) >= 2:
+            # f(c)**k: the order k is an exponent of the function value, never part of its argument (sin(k*c) != sin(c)**k)
+            kname = f.params()[1]
+            trig_tables = set()
+            for st in list(f.module.tree.body) + list(walk_no_nested(f.node)):
+                if isinstance(st, ast.Assign) and isinstance(st.value, ast.Dict) and isinstance(st.targets[0], ast.Name):
+                    vals = {v.id.lower() for v in st.value.values if isinstance(v, ast.Name)}
+                    if vals & {"sin", "cos"}:
+                        trig_tables.add(st.targets[0].id)
+            inside = []
+            for c0 in walk_no_nested(f.node):
+                if not isinstance(c0, ast.Call) or not c0.args:
+                    continue
+                callee = c0.func
+                trig = (isinstance(callee, ast.Name) and callee.id.lower() in ("sin", "cos")) or \
+                    (isinstance(callee, ast.Subscript) and isinstance(callee.value, ast.Name) and callee.value.id in trig_tables) or \
+                    (isinstance(callee, ast.Name) and any(isinstance(v, ast.Subscript) and isinstance(v.value, ast.Name) and v.value.id in trig_tables
+                                                          for v in Defs(f.node, f.params()[0]).defs.get(callee.id, []) if isinstance(v, ast.expr)))
+                if trig and any(isinstance(x, ast.Name) and x.id == kname for a in c0.args for x in ast.walk(a)):
+                    inside.append(c0)
+            if inside:
+                obs.append(Ob("D3-vocabulary", f"program/assignment/functional_assignment.py::{qn}::power", f.relpath, inside[0].lineno, qn, False,
+                              f"`{src(inside[0])[:60]}` puts the order {kname} into the argument of a trigonometric function: sin(k*c) is not sin(c)**k"))
+            else:
+                pw = [x for x in walk_no_nested(f.node) if isinstance(x, ast.BinOp) and isinstance(x.op, ast.Pow) and isinstance(x.right, ast.Name) and x.right.id == kname]
+                if pw:
+                    obs.append(Ob("D3-vocabulary", f"program/assignment/functional_assignment.py::{qn}::power", f.relpath, pw[0].lineno, qn, True,
+                                  f"the k-th moment of f(c) is f(c)**{kname}"))
         c = cfg_of(f.node)
         falls = [p for p in c.preds(c.exit) if not (p.kind == "stmt" and isinstance(p.ast, ast.Return))]
         ok = vocab <= handled and not falls
